@@ -57,7 +57,8 @@ class BasePickerModel(ABC):
         )
         boxes: Sequence[MoleculesBox] = task.compute().ravel()
         mole = Molecules.concat([box.to_molecules() for box in boxes])
-        mole._pos = (mole._pos - depth) * scale
+        # the overlap is clipped to the image size: shift back by what was actually added
+        mole._pos = (mole._pos - np.asarray(_depth, dtype=np.asarray(depth).dtype)) * scale
         return mole
 
     def _pick_in_chunk_wrapped(
